@@ -80,9 +80,12 @@ func Check(w *Workload, e *Expect, o, base *Outcome, faulty bool) []Violation {
 	if len(vs) > 0 {
 		return vs
 	}
+	// Fetching a file twice is not by itself a violation of the statement (each file must
+	// CONTRIBUTE once): it is counted as a probe; a double contribution shows in the set /
+	// order oracles below.
 	for _, p := range core.SortedKeys(o.Reads) {
 		if o.Reads[p] > 1 {
-			add("double-read", fmt.Sprintf("%s fetched %d times", p, o.Reads[p]), "")
+			o.Probes.Inc("probe_file_fetched_more_than_once")
 		}
 	}
 
@@ -104,8 +107,16 @@ func Check(w *Workload, e *Expect, o, base *Outcome, faulty bool) []Violation {
 				named = true
 			}
 		}
-		if (e.Conflict || e.Uncertain) && strings.Contains(o.Err, "imported as different") {
-			named = true
+		if e.Conflict || e.Uncertain {
+			// a conflict is reported against the file that is imported twice
+			for _, d := range e.Divergent {
+				if strings.Contains(o.Err, w.Files[d].Path) {
+					named = true
+				}
+			}
+			if strings.Contains(o.Err, "imported as different") {
+				named = true
+			}
 		}
 		if !named {
 			add("unnamed-failure", fmt.Sprintf("error does not name any failing file %v: %s", paths(w, e.Bad), core.Trunc(o.Err, 300)), "")
